@@ -326,6 +326,12 @@ theorem C16.weighted_adjoint_bdry_fails :
         ∑ j ∈ range 4, ([1, 2, 2, 1].getD j 0) * ([1, 2, 3, 4].getD j 0 * rt j) :=
   ⟨_, _, rfl, rfl, by decide⟩
 
+/-- The five pad modes of the model are exactly `_SUPPORTED_RESIZE_PAD_MODES` of the source
+(regenerated on every run). -/
+theorem C16.supported_modes :
+    OdlModel.Gen.PadSlices.supportedModes =
+      ["constant", "symmetric", "periodic", "order0", "order1"] := rfl
+
 /-! ### Non-vacuity: the hypotheses are satisfiable and the model computes the documented examples -/
 
 example : Admissible .symmetric 3 7 2 := by simp [Admissible, PadOK]
